@@ -53,6 +53,8 @@ def run_compose(cfg: CCfg, c: Ctx) -> Any:
     # roots: DAG input x (required) / DAG input y (defaulted) / constant, by pattern
     roots = [l for l in labels if not deps[l]]
     pattern = ("all-x", "all-const", "first-y", "first-x-rest-const")[c.choose(4, "src")]
+    # the default of the defaulted DAG parameter: an ordinary value or a falsy one (a default is a default whatever its truth value)
+    YDEF: Any = (11, 0, None)[c.choose(3, "ydefault")] if pattern == "first-y" else 11
     src: Dict[str, Any] = {l: None for l in labels}
     for k_, l in enumerate(roots):
         src[l] = {"all-x": "x", "all-const": "const", "first-y": "y" if k_ == 0 else "x", "first-x-rest-const": "x" if k_ == 0 else "const"}[pattern]
@@ -125,7 +127,7 @@ def run_compose(cfg: CCfg, c: Ctx) -> Any:
             kw["k"] = args.pop()
         return args, kw
 
-    def pipe(x, y=11):  # type: ignore[no-untyped-def]
+    def pipe(x, y=YDEF):  # type: ignore[no-untyped-def]
         r: Dict[str, Any] = {}
         for l in labels:
             args, kw = call_shape(l, x, y, r)
@@ -173,7 +175,7 @@ def run_compose(cfg: CCfg, c: Ctx) -> Any:
     X = c.val("x")
     before = run(d, X)
     snap = _snapshot(d)
-    ref_orig = evaluate(X, 11, {})
+    ref_orig = evaluate(X, YDEF, {})
     c.check(veq(before, tuple(ref_orig[l] for l in labels)), "original DAG differs from its plain evaluation (before compose)", prop="C19")
 
     def alias(m: str) -> Any:
@@ -254,7 +256,7 @@ def run_compose(cfg: CCfg, c: Ctx) -> Any:
         A = [c.val("in%d" % i) for i in range(len(in_nodes))]
         subst = {m: A[i] for i, m in enumerate(in_nodes) if not m.startswith("@")}
         xv = A[in_nodes.index("@x")] if "@x" in in_nodes else None
-        yv = A[in_nodes.index("@y")] if "@y" in in_nodes else 11
+        yv = A[in_nodes.index("@y")] if "@y" in in_nodes else YDEF
         val = evaluate(xv, yv, subst, only=needed)
         want: Any = val[outputs] if isinstance(outputs, str) else tuple(val[o] for o in outputs)
         try:
